@@ -1,6 +1,7 @@
 import Qfx.Drv.Util
 import Qfx.Model.Values
 import Qfx.Model.Decimal
+import Qfx.Model.Float
 namespace Qfx.Drv
 open Qfx
 
@@ -13,6 +14,13 @@ def resStr {α} (f : α → String) : Res α → String
   | .ok a => "ok " ++ f a
   | .err _ => "err"
   | .fault _ => "panic"
+
+/-- 64-bit pattern as 16 hex digits (big endian), and back -/
+def hex16 (n : Nat) : String := toHex ((List.range 8).reverse.map fun i => n / 256 ^ i % 256)
+def bits64? (h : String) : Option Nat :=
+  match fromHex h with
+  | some bs => if bs.length = 8 then some (bs.foldl (fun acc x => 256 * acc + x) 0) else none
+  | none => none
 
 def valStep (_ : Unit) (w : List String) : Unit × String :=
   ((), match w with
@@ -29,7 +37,10 @@ def valStep (_ : Unit) (w : List String) : Unit × String :=
       | some b => toHex (writeBool b)
       | none => "bad-op")
   | ["float", "read", h] => (match fromHex h with
-      | some b => if acceptFloat b then "ok" else "err"
+      | some b => resStr hex16 (Qfx.F64.readFloat b)
+      | none => "bad-op")
+  | ["float", "write", h] => (match bits64? h with
+      | some bits => if Qfx.F64.ordOf bits < 9218868437227405312 then toHex (Qfx.F64.writeFloat bits) else "bad-op"
       | none => "bad-op")
   | ["dec", "read", h] => (match fromHex h with
       | some b => resStr (fun (d : Qfx.Dec.Dec) => (if d.neg then "-" else "") ++ toString d.mag ++ " " ++ toString d.scale) (Qfx.Dec.readDec b)
